@@ -165,7 +165,12 @@ impl Lexicon {
                 ReadFieldResult::End => break,
             };
             if record_end {
-                if field_cnt == 0 && nin == 0 {
+                // csv-core skips blank lines between records, but the line terminators that end
+                // the input (a trailing blank line, the LF of a final CRLF) arrive here as a record
+                // without any field.
+                if field_cnt == 0 && is_blank(&bytes[..nin]) {
+                    record_end_pos = 0;
+                    bytes = &bytes[nin..];
                     continue;
                 }
                 if field_cnt <= 3 {
@@ -205,6 +210,11 @@ impl Lexicon {
         }
         Ok(entries)
     }
+}
+
+/// Checks if the bytes are line terminators only.
+fn is_blank(bytes: &[u8]) -> bool {
+    bytes.iter().all(|&b| b == b'\n' || b == b'\r')
 }
 
 #[derive(Eq, PartialEq, Debug)]
